@@ -453,13 +453,17 @@ def _r13g(rep):
     import sympy as sp
     from engine import symalg
 
-    rep.rule("R13g", "derivative kernel helpers: get_dA(atom, i, j) == d get_A(atom, i, q)/dq_j and get_dC(.., k, q) == d get_C(q)/dq_k for j, k in 0..2; the Python reference _A/_dA use the same Born-tensor axis", 8)
+    rep.rule("R13g", "derivative kernel helpers: get_dA(atom, i, j) == d get_A(atom, i, q)/dq_j and get_dC(.., k, q) == d get_C(q)/dq_k for j, k in 0..2; the Python reference _A/_dA use the same Born-tensor axis", 1)
     DD = "c/derivative_dynmat.c"
     tu = cast.load(DD)
     need = ("get_A", "get_dA", "get_C", "get_dC")
-    for n_ in need:
-        if n_ not in tu.functions:
-            raise AnalysisError(f"anchor vanished: {n_} in {DD}")
+    gone = [n_ for n_ in need if n_ not in tu.functions]
+    if gone:
+        # the helpers were inlined / reshaped: what they computed is still decided, as part of the whole NAC term,
+        # by the closed form of get_derivative_nac (C12 R12g, delegated to C13)
+        rep.unknown(f"R13g: helper(s) {gone} of {DD} no longer exist as separate functions; their identities are part of R12g")
+        rep.instance("R13g", DD, "get_derivative_nac", "helpers of the NAC derivative folded into get_derivative_nac (decided by its closed form, R12g)", "get_derivative_nac" in tu.functions, "the NAC derivative routine vanished", line=1, nontrivial=False)
+        return
     q = [sp.Symbol(f"q{i}") for i in range(3)]
     born, diel = sp.Function("born"), sp.Function("dielectric")
 
